@@ -87,7 +87,12 @@ func (h *H) plan(r int64) *RulePlan {
 
 var defaultPlan = RulePlan{Fire: -1, FireChild: -1, GateAt: -1, GateChild: -1, Upd: -1}
 
-func (h *H) S(r, v int64) { simrt.Emit(EvS, int64(h.c.Idx), r, v) }
+func (h *H) S(r, v int64) {
+	simrt.Emit(EvS, int64(h.c.Idx), r, v)
+	if h.c.Hold {
+		h.maybeHold()
+	}
+}
 func (h *H) E(r, v int64) { simrt.Emit(EvE, int64(h.c.Idx), r, v) }
 
 func (h *H) Y(r, k int64) {
